@@ -13,7 +13,7 @@ from ..specs import BASE, Model, iso, day
 ID = 'C14'
 RULE = ('Generated well-formed WBS specs incl. unschedulable ones: hierarchical dependency cycles (a task waiting for a task '
         'that waits for one of its ancestors; 1/3 of the stream), resources whose calendar is empty / zero / ended before '
-        'the project start (forward) / starting after the deadline (backward) / offering only a few dated days (less than a task needs), external predecessors with and without '
+        'the project start (forward) / starting after the deadline (backward) / with validity bounds at a time of day / offering only a few dated days (less than a task needs), external predecessors with and without '
         'dates, leaves with a fixed end after the clock (forward), tasks named None, empty WBS, zero-work and milestone '
         'tasks on dead resources; both schedulers.  Oracle: outcome is a Schedule or a RuntimeError that is not a '
         'RecursionError; any other exception type is a violation; for the four unschedulable classes of the statement a '
@@ -59,7 +59,7 @@ def c14_case(draw, max_tasks=7):
     spec = c['spec']
     m = Model(spec)
     N = dt(c['N'])
-    flavour = draw(st.sampled_from(['plain', 'plain', 'dead', 'ext', 'ext-undated', 'future-end', 'none-name', 'mix']))
+    flavour = draw(st.sampled_from(['plain', 'plain', 'dead', 'ext', 'ext-undated', 'future-end', 'none-name', 'mix', 'tod-bounds', 'tod-bounds']))
     c['flavour'] = flavour
     if hier and draw(st.booleans()):
         # build a cycle that only closes through the hierarchy: c (below S) waits for X, X waits for S (or reversed roles)
@@ -92,6 +92,16 @@ def c14_case(draw, max_tasks=7):
                             spec['links'].remove(l)
                 m = Model(spec)
     used = sorted({str(t['resource']) for t in spec['tasks']})
+    if flavour == 'tod-bounds' and used:
+        anchor = (dt(c['P']) - BASE).days
+        for name in used:
+            if draw(st.booleans()):
+                cs = draw(specs.calendar_spec(tod=True))
+                if draw(st.booleans()):
+                    # put the first valid day right next to the project end / start: that is where a search lands on it
+                    k = 3 if cs[0] == 'bounded_tod' else 2
+                    cs[k] = anchor - draw(st.sampled_from([1, 1, 2, 0])) if not fwd else anchor + draw(st.sampled_from([0, 1, 2]))
+                c['res'][name] = cs
     if flavour in ('dead', 'mix') and used:
         victim = draw(st.sampled_from(used))
         c['res'][victim] = draw(specs.calendar_spec(dead=True))
